@@ -295,6 +295,61 @@ func genOps(md protoreflect.MessageDescriptor) []op {
 			}})
 		}
 	}
+	// mutation through the value handed to a Range callback (legal for the field being visited)
+	for i := 0; i < fs.Len(); i++ {
+		fd := fs.Get(i)
+		name := string(fd.Name())
+		shape := shapeOf(fd)
+		populated := func(e *env) bool { return e.m.Has(fdIn(e, fd)) }
+		visit := func(e *env, f func(v protoreflect.Value)) string {
+			n := 0
+			e.m.Range(func(d protoreflect.FieldDescriptor, v protoreflect.Value) bool {
+				if d.Number() == fd.Number() {
+					n++
+					f(v)
+				}
+				return true
+			})
+			e.release(fd)
+			return fmt.Sprint(n)
+		}
+		switch {
+		case fd.IsList():
+			isMsg := fd.Kind() == protoreflect.MessageKind
+			add(op{"Range->" + name + ".Append", "Range-callback.List.Append/" + shape, true, populated, func(e *env) string {
+				return visit(e, func(v protoreflect.Value) {
+					l := v.List()
+					if isMsg {
+						l.Append(l.NewElement())
+					} else {
+						l.Append(enum.ScalarAlphabet(fd, enum.Reduced)[1])
+					}
+				})
+			}})
+			add(op{"Range->" + name + ".Truncate(len-1)", "Range-callback.List.Truncate/" + shape, true, populated, func(e *env) string {
+				return visit(e, func(v protoreflect.Value) { l := v.List(); l.Truncate(l.Len() - 1) })
+			}})
+		case fd.IsMap():
+			kal := enum.ScalarAlphabet(fd.MapKey(), enum.Reduced)
+			add(op{"Range->" + name + ".Clear(k1)+Set(k0)", "Range-callback.Map.Set/" + shape, true, populated, func(e *env) string {
+				return visit(e, func(v protoreflect.Value) {
+					mp := v.Map()
+					mp.Clear(kal[1].MapKey())
+					if fd.MapValue().Kind() == protoreflect.MessageKind {
+						mp.Set(kal[0].MapKey(), mp.NewValue())
+					} else {
+						mp.Set(kal[0].MapKey(), enum.ScalarAlphabet(fd.MapValue(), enum.Reduced)[1])
+					}
+				})
+			}})
+		case fd.Kind() == protoreflect.MessageKind:
+			if inner := firstScalarField(fd.Message()); inner != nil {
+				add(op{"Range->" + name + ".Set(inner)", "Range-callback.Message.Set/" + shape, true, populated, func(e *env) string {
+					return visit(e, func(v protoreflect.Value) { v.Message().Set(inner, sampleValue(inner, 1)) })
+				}})
+			}
+		}
+	}
 	unk := enum.UnknownAlphabet(md, enum.Reduced)[0]
 	add(op{"SetUnknown(rec)", "SetUnknown", true, always, func(e *env) string {
 		e.m.SetUnknown(append(protoreflect.RawFields(nil), unk...))
